@@ -206,22 +206,28 @@ Definition remove_unused_volumes (vols : vtable) : vtable :=
          vols.
 
 (* ---- tail of convertMCNPGeometry -------------------------------------------- *)
+(* the helper planes are renumbered together with the other surfaces (fix a12128b):
+   union_ids = tuple(renumber[surf] for surf in union_ids) *)
 Definition prune (skip_dedup : bool) (surfs : stable) (vols : vtable) (u0 u1 : Z)
   : res (stable * vtable * option (list (Z * Z))) :=
   let step1 :=
-    if skip_dedup then Ok (surfs, vols, None)
+    if skip_dedup then Ok (surfs, vols, None, u0, u1)
     else match remove_duplicate_surfaces surfs with
          | Err e => Err e
          | Ok (news, ren) =>
              match renumber_surfaces vols ren with
              | Err e => Err e
-             | Ok vols' => Ok (news, vols', Some ren)
+             | Ok vols' =>
+                 match lookup u0 ren, lookup u1 ren with
+                 | Some a, Some b => Ok (news, vols', Some ren, a, b)
+                 | _, _ => Err EKey
+                 end
              end
          end in
   match step1 with
   | Err e => Err e
-  | Ok (surfs1, vols1, ren) =>
-      match remove_empty_volumes vols1 u0 u1 with
+  | Ok (surfs1, vols1, ren, a, b) =>
+      match remove_empty_volumes vols1 a b with
       | None => Err EFuel
       | Some vols2 => Ok (surfs1, remove_unused_volumes vols2, ren)
       end
@@ -360,10 +366,16 @@ Fixpoint gc_add (name : string) (k : Z) (groups : list (string * list Z)) : list
   | (n, l) :: r => if String.eqb name n then (n, l ++ [k]) :: r else (n, l) :: gc_add name k r
   end.
 
-Definition material_name (c : cell) : string :=
-  match c_density c with
-  | None => c_mat c
-  | Some d => c_mat c +++ "_" +++ d
+(* str(int(materialID)) [+ '_' + density] (fix d8902ad); int() of a token that is not a
+   number is a ValueError *)
+Definition material_name (c : cell) : res string :=
+  match c_matint c with
+  | None => Err EValue
+  | Some i =>
+      Ok (match c_density c with
+          | None => dec_Z i
+          | Some d => dec_Z i +++ "_" +++ d
+          end)
   end.
 
 Fixpoint gc_groups (vols : vtable) (cells : ctable) (groups : list (string * list Z))
@@ -376,7 +388,11 @@ Fixpoint gc_groups (vols : vtable) (cells : ctable) (groups : list (string * lis
         let vol_id := match v_origin v with (a, _) :: _ => a | [] => k end in
         match lookup vol_id cells with
         | None => Err EKey
-        | Some c => gc_groups r cells (gc_add (material_name c) k groups)
+        | Some c =>
+            match material_name c with
+            | Err e => Err e
+            | Ok name => gc_groups r cells (gc_add name k groups)
+            end
         end
   end.
 
@@ -446,7 +462,7 @@ Definition write_file (ren : option (list (Z * Z))) (w : wstate) : outcome :=
               match (if w_skip_geomcomp w then Ok None
                      else match construct_geomcomp (w_vols w) (w_cells w) with
                           | Ok g => Ok (Some g) | Err e => Err e end) with
-              | Err e => Died true sl e                 (* KeyError in GEOMCOMP: not printed faithfully, see notes *)
+              | Err e => Died true sl e                 (* KeyError/ValueError in GEOMCOMP: not printed faithfully, see notes *)
               | Ok gc =>
                   match (if w_skip_bc w then Ok None
                          else write_bc ren (used_surfaces (w_vols w)) (w_bcs w)) with
